@@ -128,6 +128,8 @@ def vstr(v, d=0):
         return "(%s as %s)" % (vstr(v[2], d + 1), v[1])
     if k == "closure":
         return "closure#%s" % v[1].split("::")[-1]
+    if k == "boxptr":
+        return "box(%s)" % vstr(v[1], d + 1)
     return str(v)
 
 
@@ -143,6 +145,19 @@ def subterms(v):
         for y in x[1:] if isinstance(x[0], str) else x:
             if isinstance(y, tuple):
                 st.append(y)
+
+
+def step_names(v):
+    """Field names occurring in the location paths of references inside a term."""
+    out = []
+    for x in subterms(v):
+        if x[0] == "loc":
+            for st in x[2]:
+                if st[0] == "f":
+                    out.append(st[1])
+        elif x[0] == "field":
+            out.append(x[2])
+    return out
 
 
 def mentions(v, pred):
@@ -203,11 +218,13 @@ class Engine:
                 cur = self.read_loc(path, ("loc", root, steps))
                 if cur[0] == "ref":
                     root, steps = cur[1][1], cur[1][2]
+                elif cur[0] == "boxptr":
+                    root, steps = cur[1], ()
                 else:
                     # pointer to an opaque object: the object itself becomes the root
                     root, steps = ("deref", cur) if cur[0] != "sym" else cur, ()
             elif k == "field":
-                steps = steps + (("f", e.get("n", str(e["i"])), e["i"]),)
+                steps = steps + (("f", e.get("n", str(e["i"])), e["i"], e.get("adt", "")),)
             elif k == "downcast":
                 steps = steps + (("d", e.get("n", str(e["i"]))),)
             elif k == "index":
@@ -258,6 +275,13 @@ class Engine:
                 return self.project(path, base, st, None)
         if k == "f":
             name, idx = st[1], st[2]
+            adt = st[3] if len(st) > 3 else ""
+            # Box<T> is modelled by its content: Box.0 / Unique.pointer / NonNull.pointer are the
+            # pointer to that content
+            if adt in ("std::boxed::Box",) and idx == 0 and v[0] != "boxptr":
+                return ("boxptr", v)
+            if v[0] == "boxptr" and adt in ("std::ptr::Unique", "std::ptr::NonNull"):
+                return v
             if v[0] == "adt" and idx < len(v[3]):
                 return v[3][idx]
             if v[0] == "tuple" and idx < len(v[1]):
@@ -329,6 +353,10 @@ class Engine:
                 v = o["val"]
                 # signed interpretation for small negative discriminants is not needed
                 return ("int", v)
+            if "promoted" in o:
+                v = self.eval_promoted(path, o)
+                if v is not None:
+                    return v
             if o.get("fn"):
                 return ("fn", o["fn"], o.get("fn_path"))
             if o.get("static"):
@@ -337,6 +365,50 @@ class Engine:
                 return ("unit",)
             return ("const", o.get("s"))
         return ("sym", "op?")
+
+    def eval_promoted(self, path, o):
+        """Value of a promoted constant (`&CONST`): straight-line evaluation of its tiny body into a
+        reference to a constant value."""
+        owner = None
+        if self.facts is not None:
+            owner = self.facts.fns.get(o.get("promoted_of"))
+        if owner is None:
+            owner = self.fn
+        proms = owner.j.get("promoted") or []
+        i = o["promoted"]
+        if i >= len(proms):
+            return None
+        body = proms[i]
+        if len(body["blocks"]) != 1:
+            return None
+        vals = {}
+        for st in body["blocks"][0]["stmts"]:
+            if st["k"] != "assign" or st["p"]["pj"]:
+                return None
+            rv = st["rv"]
+            if rv["k"] == "aggregate":
+                fs = []
+                for f in rv["fields"]:
+                    if f["k"] == "const":
+                        fs.append(self.operand(path, f))
+                    elif f["k"] in ("copy", "move") and not f["p"]["pj"] and f["p"]["l"] in vals:
+                        fs.append(vals[f["p"]["l"]])
+                    else:
+                        return None
+                ak = rv.get("ak")
+                if ak == "adt":
+                    vals[st["p"]["l"]] = ("adt", rv["path"], rv["variant"], tuple(fs))
+                elif ak == "array":
+                    vals[st["p"]["l"]] = ("array", tuple(fs))
+                else:
+                    vals[st["p"]["l"]] = ("tuple", tuple(fs))
+            elif rv["k"] == "use" and rv["op"]["k"] == "const":
+                vals[st["p"]["l"]] = self.operand(path, rv["op"])
+            elif rv["k"] == "ref" and not rv["p"]["pj"] and rv["p"]["l"] in vals:
+                vals[st["p"]["l"]] = ("ref", ("loc", vals[rv["p"]["l"]], ()), False)
+            else:
+                return None
+        return vals.get(0)
 
     def rvalue(self, path, rv, bb):
         k = rv["k"]
@@ -403,6 +475,8 @@ class Engine:
                 x, y = a[1], b[1]
                 r = {"Eq": x == y, "Ne": x != y, "Lt": x < y, "Le": x <= y, "Gt": x > y, "Ge": x >= y}[op]
                 return ("bool", r)
+            if a[0] == "adt" and b[0] == "adt" and not a[3] and not b[3] and a[1] == b[1] and op in ("Eq", "Ne"):
+                return ("bool", (a[2] == b[2]) == (op == "Eq"))
             if a == b and op in ("Eq", "Le", "Ge"):
                 return ("bool", True)
             if a == b and op in ("Ne", "Lt", "Gt"):
@@ -488,8 +562,8 @@ class Engine:
     def deref_val(self, path, v):
         """Read through references (for by-ref arguments of modelled pure calls)."""
         n = 0
-        while v[0] == "ref" and n < 8:
-            v = self.read_loc(path, v[1])
+        while v[0] in ("ref", "boxptr") and n < 8:
+            v = self.read_loc(path, v[1]) if v[0] == "ref" else v[1]
             n += 1
         return v
 
